@@ -294,8 +294,14 @@ func classifyMapRange(p *Prog, mr mapRange) (string, string) {
 	if len(appends) > 0 {
 		// E2: each slice appended to must be sorted after the loop on every path
 		for _, ap := range appends {
-			if !sortedAfter(p, mr, ap) {
+			okS, sorts := sortedAfter(p, mr, ap)
+			if !okS {
 				return "E4", "elements are appended in iteration order to a slice that is not sorted afterwards on every path"
+			}
+			for _, sc := range sorts {
+				if okU, why := sortKeyFromMapKey(p, mr, ap, sc, kExt); !okU {
+					return "E4", why
+				}
 			}
 		}
 		return "E2", "appends to a slice that is sorted before it escapes"
@@ -349,7 +355,8 @@ func hasStringOrderCompare(mr mapRange) bool {
 
 // sortedAfter: the slice the append extends is sorted on every path from the
 // loop exit before any return.
-func sortedAfter(p *Prog, mr mapRange, ap *ssa.Call) bool {
+func sortedAfter(p *Prog, mr mapRange, ap *ssa.Call) (bool, []*ssa.Call) {
+	var sorts []*ssa.Call
 	fn := mr.Fn
 	// identify the slice variable: where the append result is stored (field / cell) or the phi it feeds
 	var isSame func(v ssa.Value) bool
@@ -393,7 +400,7 @@ func sortedAfter(p *Prog, mr mapRange, ap *ssa.Call) bool {
 			}
 		}
 		if ph == nil {
-			return false
+			return false, nil
 		}
 		isSame = func(v ssa.Value) bool {
 			v = canon(v)
@@ -416,7 +423,11 @@ func sortedAfter(p *Prog, mr mapRange, ap *ssa.Call) bool {
 		}
 		o := calleeObj(cl)
 		if isFunc(o, "sort", "Slice") || isFunc(o, "sort", "SliceStable") || isFunc(o, "sort", "Strings") || isFunc(o, "sort", "Sort") || isFunc(o, "sort", "Stable") {
-			return len(cl.Call.Args) > 0 && isSame(cl.Call.Args[0])
+			if len(cl.Call.Args) > 0 && isSame(cl.Call.Args[0]) {
+				sorts = append(sorts, cl)
+				return true
+			}
+			return false
 		}
 		if o != nil && o.Name() == "Sort" && len(cl.Call.Args) > 0 {
 			// versions.List.Sort orders by precedence only: versions that differ in build metadata
@@ -436,12 +447,101 @@ func sortedAfter(p *Prog, mr mapRange, ap *ssa.Call) bool {
 		first := s.Instrs[0]
 		ok, _ := mustPassFromBlock(first, isSort)
 		if !ok {
-			return false
+			return false, nil
 		}
 	}
 	_ = fn
-	return true
+	// every sort of this slice in the function (the must-pass search stops at the first on each path)
+	sorts = nil
+	eachInstr(fn, func(in ssa.Instruction) { isSort(in) })
+	return true, sorts
 }
+
+// sortKeyFromMapKey: the comparator handed to sort.Slice orders the appended
+// elements by something that distinguishes them. The elements come one per map
+// key, so what is compared must be built from the key: the whole element when
+// the element derives from the key, or at least one projected field whose
+// stored value derives from it. A comparator that looks only at fields filled
+// from the map's values (which may repeat) leaves ties in iteration order.
+func sortKeyFromMapKey(p *Prog, mr mapRange, ap *ssa.Call, sc *ssa.Call, kExt ssa.Value) (bool, string) {
+	if kExt == nil || len(sc.Call.Args) < 2 || !(isFunc(calleeObj(sc), "sort", "Slice") || isFunc(calleeObj(sc), "sort", "SliceStable")) {
+		return true, ""
+	}
+	var less *ssa.Function
+	switch x := sc.Call.Args[1].(type) {
+	case *ssa.MakeClosure:
+		less, _ = x.Fn.(*ssa.Function)
+	case *ssa.Function:
+		less = x
+	}
+	if less == nil || len(less.Blocks) == 0 {
+		return true, ""
+	}
+	whole := false
+	fields := map[int]string{}
+	eachInstr(less, func(in ssa.Instruction) {
+		ia, ok := in.(*ssa.IndexAddr)
+		if !ok {
+			return
+		}
+		if refs := ia.Referrers(); refs != nil {
+			for _, r := range *refs {
+				switch y := r.(type) {
+				case *ssa.FieldAddr:
+					if st, ok := derefType(ia.Type()).Underlying().(*types.Struct); ok {
+						fields[y.Field] = st.Field(y.Field).Name()
+					}
+				case *ssa.DebugRef:
+				default:
+					whole = true
+				}
+			}
+		}
+	})
+	if !whole && len(fields) == 0 {
+		return true, ""
+	}
+	// the appended element
+	var elem ssa.Value
+	if sl, ok := ap.Call.Args[1].(*ssa.Slice); ok {
+		if al, ok := sl.X.(*ssa.Alloc); ok {
+			for _, w := range elemWrites(al) {
+				elem = w.Val
+			}
+		}
+	}
+	if elem == nil {
+		return true, ""
+	}
+	if whole {
+		if p.backSlice(elem, 0)[kExt] {
+			return true, ""
+		}
+		return false, "the slice built from the map is sorted on elements that do not derive from the map's key: equal elements keep iteration order"
+	}
+	var cell *ssa.Alloc
+	if ld, ok := elem.(*ssa.UnOp); ok && ld.Op == token.MUL {
+		cell, _ = ld.X.(*ssa.Alloc)
+	}
+	if cell == nil {
+		if p.backSlice(elem, 0)[kExt] {
+			return true, ""
+		}
+		return false, "the sorted elements do not derive from the map's key"
+	}
+	var names []string
+	for fi, fname := range fields {
+		names = append(names, fname)
+		for _, st := range fieldWrites(cell, fi) {
+			if p.backSlice(st.Val, 0)[kExt] {
+				return true, ""
+			}
+		}
+	}
+	sort.Strings(names)
+	return false, "the slice built from the map is sorted by " + strings.Join(names, ", ") + " only, which is not filled from the map's key but from its values: elements that agree there (several keys sharing one value) keep the map's iteration order, so the output differs from run to run"
+}
+
 
 // ---------- C13.locks / atomic ----------
 
